@@ -502,6 +502,15 @@ fn macro_def(file: &str, m: &syn::ItemMacro, name: &str) -> R<MacroDef> {
             _ => {}
         }
     }
+    // the digest shapes: where the direct reading above found none, the normalised term reading (newtypes.rs) decides
+    let shapes = crate::newtypes::digest_shapes(file, name, f);
+    for im in def.impls.iter_mut() {
+        if im.shape.is_empty() {
+            if let Some(s) = shapes.get(&im.trait_) {
+                im.shape = s.clone();
+            }
+        }
+    }
     Ok(def)
 }
 
